@@ -14,11 +14,13 @@ def gen_cases(tier):
     cases = []
     for i in range(n):
         rng = family.rng_for(sd, PROP, i)
-        schema = gen.SCHEMAS[i % len(gen.SCHEMAS)] if i % 9 != 4 else (["tlp_degenerate", "t4_chain", "fanout3"][(i // 9) % 3])
+        schema = gen.SCHEMAS[i % len(gen.SCHEMAS)] if i % 9 != 4 else (["tlp_degenerate", "t4_chain", "fanout3", "twins"][(i // 9) % 4])
         pr = gen.build_pair(rng, schema, dyadic=0.1 if i % 7 == 0 else 0.0)
         if pr is None:
             continue
         d1, d2, swap = pr
+        if i % 5 == 3:
+            plant_twins(rng, d1, d2)
         cfgs = []
         for keep in gen.keep_choices(rng, d1, d2):
             cfgs.append((keep, rng.random() < 0.6, gen.rorder(rng)))
@@ -33,6 +35,41 @@ def gen_cases(tier):
             cfgs = [([], False, [5]), ([], False, [5, 1, 2, 3, 4]), ([], True, [5, 2]), ([], True, [5])]
         cases.append({"id": i + 1, "raw": [d1, d2], "swap": swap, "schema": schema, "cfgs": cfgs, "sibling": i % 3 == 0})
     return cases
+
+
+def plant_twins(rng, d1, d2):
+    """Terms that are easily taken for one another -- a near twin (one coefficient off by 10^-5 of itself), the same coefficients handed to
+    other variables, another first coefficient -- placed on the two sides of a composition: an assumption of the consumer next to a
+    guarantee of the producer, or assumptions of both over a shared input.  They are different constraints and each has to be honoured."""
+    from props import c08
+
+    def twin_of(r):
+        k = rng.random()
+        if k < 0.4:
+            return c08.near_twin(rng, r)
+        t = c08.permuted_twin(r) if k < 0.7 else c08.first_coefficient_twin(r)
+        return (r, t) if t else None
+
+    shared_in = [v for v in d1["inv"] if v in d2["inv"]]
+    pairs = []
+    if d2["a"]:
+        r = rng.choice(d2["a"])
+        if set(r[0]) <= set(d1["inv"]) | set(d1["outv"]):
+            pairs.append((d2["a"], r, d1["g"]))
+    if shared_in and d1["a"]:
+        r = rng.choice(d1["a"])
+        if set(r[0]) <= set(shared_in):
+            pairs.append((d1["a"], r, d2["a"]))
+    for src, r, dst in pairs:
+        tw = twin_of(r)
+        if tw:
+            base, twin = tw
+            src[src.index(r)] = base
+            dst.append(twin)
+    try:
+        gen.mk_contract(d1), gen.mk_contract(d2)
+    except ValueError:
+        pass
 
 
 def sibling(d1, d2):
